@@ -175,43 +175,70 @@ def run_unit(name, template, tier="quick", canaries=("head",), rlimit=None, meta
     # vacuity canaries: only meaningful when the unit verifies
     if u.status == "ok":
         for kind in canaries:
-            try:
-                cc = C.compose(template, name, canary=kind)
-            except C.ExtractionError as e:
-                u.status = "undecided"
-                u.reason = f"canary extraction: {e}"
-                break
-            marks = re.findall(r"/\*CANARY ([\w.]+)\*/", cc.text)
-            if not marks:
-                u.canaries[kind] = {"expected": 0, "failed": 0}
-                continue
-            cpath = os.path.join(BUILD, "units", f"{name}__canary_{kind}.rs")
-            open(cpath, "w").write(cc.text)
-            cr = V.run(cpath, rlimit=rlimit, multiple_errors=12)
-            if not cr.ran or not cr.functions:
-                u.status = "undecided"
-                u.reason = f"canary file ({kind}) not accepted by verus: {cr.note}"
-                break
-            clines = cc.text.split("\n")
-            hit = set()
-            for d in cr.diags:
-                for l in d["all_lines"]:
-                    if 0 < l <= len(clines):
-                        for m in re.findall(r"/\*CANARY ([\w.]+)\*/", clines[l - 1]):
-                            hit.add(m)
-            # a canary counts as failed-as-required when the assert(false) itself is reported, or an earlier
-            # obligation of the same function already fails because of it
-            u.canaries[kind] = {"expected": len(marks), "failed": len(hit & set(marks))}
-            missing = sorted(set(marks) - hit)
-            if missing and kind == "head":
-                # multiple-errors may stop before reaching a later probe; only a function where *no* probe fails is vacuous
-                fn_marks = {}
-                for m in marks:
-                    fn_marks.setdefault(m.split(".")[0], []).append(m)
-                vac = [k for k, ms in fn_marks.items() if not (set(ms) & hit)]
-                if vac:
-                    names = [f["name"] for f in cc.fns if str(f["k"]) in vac]
+            # head probes: one file. loop probes: one file per loop ordinal (a failed assert(false) is assumed afterwards, so probes in
+            # nested or consecutive loops of one function would mask each other)
+            rounds = [None]
+            if kind != "head":
+                try:
+                    c0 = C.compose(template, name, canary=kind)
+                except C.ExtractionError as e:
                     u.status = "undecided"
-                    u.reason = f"vacuity canary did not fail in: {names} (contradictory precondition or unreachable body)"
+                    u.reason = f"canary extraction: {e}"
+                    break
+                nl = max([f["nloops"] for f in c0.fns] + [0])
+                rounds = list(range(nl))
+                if not rounds:
+                    u.canaries[kind] = {"expected": 0, "failed": 0}
+                    continue
+            exp_total, hit_total, vac_names = 0, 0, []
+            broken = False
+            for rnd in rounds:
+                try:
+                    cc = C.compose(template, name, canary=kind, canary_loop=rnd)
+                except C.ExtractionError as e:
+                    u.status = "undecided"
+                    u.reason = f"canary extraction: {e}"
+                    broken = True
+                    break
+                marks = re.findall(r"/\*CANARY ([\w.]+)\*/", cc.text)
+                if not marks:
+                    continue
+                cpath = os.path.join(BUILD, "units", f"{name}__canary_{kind}{'' if rnd is None else rnd}.rs")
+                open(cpath, "w").write(cc.text)
+                cr = V.run(cpath, rlimit=rlimit, multiple_errors=12)
+                if not cr.ran or not cr.functions:
+                    u.status = "undecided"
+                    u.reason = f"canary file ({kind}) not accepted by verus: {cr.note}"
+                    broken = True
+                    break
+                clines = cc.text.split("\n")
+                hit = set()
+                for d in cr.diags:
+                    for l in d["all_lines"]:
+                        if 0 < l <= len(clines):
+                            for m in re.findall(r"/\*CANARY ([\w.]+)\*/", clines[l - 1]):
+                                hit.add(m)
+                exp_total += len(marks)
+                hit_total += len(hit & set(marks))
+                missing = sorted(set(marks) - hit)
+                if missing and kind in ("head", "loop_head"):
+                    # a function whose probe does not fail although the function is reported as failing for another reason is not
+                    # vacuous (multiple-errors may stop early); one that verifies WITH the probe is
+                    failing_fns = {f.split("::")[-1] for f, v in cr.functions.items() if not v.get("success")}
+                    for m in missing:
+                        fn = next((f["name"] for f in cc.fns if str(f["k"]) == m.split(".")[0]), m)
+                        if fn not in failing_fns:
+                            vac_names.append(f"{fn}{'' if rnd is None else ' loop ' + str(rnd)}")
+            if broken:
+                break
+            u.canaries[kind] = {"expected": exp_total, "failed": hit_total}
+            if vac_names and kind == "head":
+                u.status = "undecided"
+                u.reason = f"vacuity canary ({kind}) did not fail in: {sorted(set(vac_names))} (contradictory precondition or unreachable body)"
+                break
+            if vac_names:
+                # a loop whose head is unreachable is reported, not refused: emitted code does contain dead loops (e.g. the per-variant
+                # loop of a receiver that declares no enum word returns before it)
+                u.canaries[kind]["not_reached"] = sorted(set(vac_names))
     u.wall_s = time.time() - t0
     return u
